@@ -91,7 +91,19 @@ def chain_cases():
 
 
 def run(chk):
-    chk.prove([resolve_tr.translate])
+    if not chk.prove([resolve_tr.translate]):
+        # say which theorems are affected: termination is proved directly on the model with the loop-condition fact only,
+        # the progress count with the two counting facts only; the least-fixpoint theorems use all facts (Proofs/ResolveProofs.v)
+        if chk.translator_errors:
+            chk.notes.append("the translator refused the current source: no theorem of C09 is re-established (%s)" % "; ".join(chk.translator_errors)[:300])
+        else:
+            for thms, target in (("C09_terminates, C09_terminates_snapshot", "Proofs/ResolveTermProofs.vo"),
+                                 ("C09_progress_counted_exact", "Proofs/ResolveCountProofs.vo"),
+                                 ("the least-fixpoint theorems (C09_success_iff, C09_monotone_*, C09_snapshot_*, C09_error_names, ...)", "Proofs/ResolveProofs.vo")):
+                ok, _ = core.coq_make([target])
+                chk.notes.append("%s: %s against the current source (%s %s)" % (thms, "still proved" if ok else "NOT proved", target, "builds" if ok else "does not build"))
+        for n in chk.notes:
+            print("NOTE property=C09 " + n)
     cases = rc.corpus_cases("C09") + chain_cases()
     cases += enum_digraphs(2, chk.rng.split("e2"), 16)
     cases += enum_digraphs(3, chk.rng.split("e3"), 512 if chk.thorough else 150)
